@@ -81,19 +81,19 @@ def run(ctx):
     else:
         corr_ok = False
 
-    # the hypotheses of C03_partial_reencode (grid, rwf) evaluated inside Coq on every decoded value: they may only fail in
-    # the two refuted classes (off-grid DateTime, extension object with an empty registered struct); and the unproved
-    # lemma behind "rwf can only fail there" (the re-encoding is not longer than what was consumed) on the implementation
+    # the hypotheses of C03_partial_stable (grid, noempty) evaluated inside Coq on every decoded value, together with the
+    # conclusion of C03_decoded_rwf (rwf): they may only fail in the two refuted classes (off-grid DateTime, extension
+    # object with an empty registered struct); and "the re-encoding is not longer than what was consumed" on the implementation
     hyp_n, hyp_out, longer = None, [], 0
     good = [ob for ob in decoded if cc.model_evaluable(ob) and len(ob.get("val", "")) < 20000]
     if okm and good:
         imports = cc.IMPORTS.replace("Model.CodecEq ", "Model.CodecEq Model.CodecWf Model.CodecWfAll ")
         okw, idxw, wlog = ctx.eval_cases(imports, "ty * val", ["(%s, %s)" % (ob["ty"], ob["val"]) for ob in good],
-                                         "  grid (snd c) && rwf reg (fst c) (snd c)", shard=80, name="HypCases")
+                                         "  grid (snd c) && noempty (snd c) && rwf reg (fst c) (snd c)", shard=80, name="HypCases")
         if okw:
             hyp_n = len(good) - len(idxw)
             hyp_out = [good[i] for i in idxw if not off_grid_time(good[i]["val"]) and EMPTY_BODY not in good[i]["val"]]
-            ctx.log("%d of %d decoded values satisfy grid && rwf (hypotheses of C03_partial_reencode); %d outside beyond the two refuted classes"
+            ctx.log("%d of %d decoded values satisfy grid && noempty (hypotheses of C03_partial_stable) and rwf; %d outside beyond the two refuted classes"
                     % (hyp_n, len(good), len(hyp_out)))
             if hyp_out:
                 detail["decoded_values_outside_hypotheses"] = [{"ty": o["ty"], "hex": o.get("hex", "")[:200], "val": o["val"][:400]} for o in hyp_out[:4]]
